@@ -1,6 +1,6 @@
 (** Pinned statements of the C11 property theorems: compiled on every check, so a theorem cannot
     be weakened silently. *)
-From V Require Import Base.Util C11.Model C11.Spec C11.Corr C11.Proofs1 C11.Proofs2 C11.Proofs3 C11.Proofs4 C11.Proofs5 C11.Proofs6.
+From V Require Import Base.Util C11.Model C11.Spec C11.SpecFull C11.Corr C11.Proofs1 C11.Proofs2 C11.Proofs3 C11.Proofs4 C11.Proofs5 C11.Proofs6 C11.Proofs7 C11.Proofs8.
 From Coq Require Import Permutation Sorted.
 From V Require Import C11.Properties.
 
@@ -77,6 +77,45 @@ Check (C11_agree_sound : forall files builtins r,
 Check (C11_sort_is_stable_sort : forall l,
   Sorted entry_le (sort_by_pos l) /\ Permutation (sort_by_pos l) l /\
   forall q, filter (same_linecol q) (sort_by_pos l) = filter (same_linecol q) l).
+Check (C11_model_meets_spec_full : forall doc, spec_ok_full doc (outcome_of (resolve doc))).
+Check (C11_resolve_exact_full : forall doc out,
+  resolve doc = inr out ->
+  exists defs, out = map IDir (dirdefs doc) ++ map IDef defs /\
+               Permutation defs (map (fun d => merge_ref_k d (exts_of (d_kind d) (d_name d) doc)) (all_defs doc))).
+Check (C11_reference_k_wf : forall doc, wf_doc doc = true -> reference_k doc = reference doc).
+Check (C11_conservation : forall doc out,
+  resolve doc = inr out ->
+  Permutation (parts_out out) (parts_in doc) /\
+  Permutation (map def_head (all_defs out)) (map def_head (all_defs doc)) /\
+  dirdefs out = dirdefs doc).
+Check (C11_merged_item_order : forall files builtins out d',
+  resolve_files files builtins = inr out -> In (IDef d') out ->
+  exists d, In (IDef d) (concat files ++ builtins) /\
+    d' = merge_ref_k d (flat_map (exts_of (d_kind d) (d_name d)) files ++ exts_of (d_kind d) (d_name d) builtins)).
+Check (C11_directive_definitions_pass : forall doc out,
+  resolve doc = inr out ->
+  dirdefs out = dirdefs doc /\ out = map IDir (dirdefs doc) ++ map IDef (all_defs out)).
+Check (C11_directive_definitions_across_files : forall files builtins,
+  dirdefs (merge_documents files ++ builtins) = flat_map dirdefs files ++ dirdefs builtins).
+Check (C11_diagnostic_at_offending_item : forall doc e,
+  resolve doc = inl e ->
+  (exists it, In it doc /\ offending doc it /\ item_pos it = Some (diag_pos e)) /\
+  (forall p t, In (p, t) (additional_info e) ->
+     exists it, In it doc /\ offending doc it /\ item_pos it = Some p)).
+Check (C11_fails_iff_offending : forall doc,
+  (exists e, resolve doc = inl e) <-> (exists it, In it doc /\ offending doc it)).
+Check (C11_orphan_error_in_document : forall doc elem p,
+  resolve doc = inl (NoOriginal elem p) ->
+  ~ dup_original doc /\
+  exists x, first_orphan_in_document doc x /\ elem = name_of_elem (e_kind x) /\ p = e_pos x /\
+    exists pre post, kinds_in_output_order = pre ++ e_kind x :: post /\
+      forall k', In k' pre -> forall y, In (IExt y) doc -> e_kind y = k' -> defs_of k' (e_name y) doc <> []).
+Check (C11_spec_ok_b_complete : forall doc o, spec_ok doc o -> spec_ok_b doc o = true).
+Check (C11_holds_complete : forall c, case_ok c -> holds c = true).
+Check (C11_check_accepts_model : forall files builtins,
+  wf_doc (merge_documents files ++ builtins) = true ->
+  holds (Case files builtins (result_of (resolve_files files builtins))) = true /\
+  agree (Case files builtins (result_of (resolve_files files builtins))) = true).
 
 Print Assumptions C11_no_extension_survives.
 Print Assumptions C11_success_form.
@@ -98,3 +137,16 @@ Print Assumptions C11_holds_sound.
 Print Assumptions C11_spec_ok_b_sound.
 Print Assumptions C11_agree_sound.
 Print Assumptions C11_sort_is_stable_sort.
+Print Assumptions C11_model_meets_spec_full.
+Print Assumptions C11_resolve_exact_full.
+Print Assumptions C11_reference_k_wf.
+Print Assumptions C11_conservation.
+Print Assumptions C11_merged_item_order.
+Print Assumptions C11_directive_definitions_pass.
+Print Assumptions C11_directive_definitions_across_files.
+Print Assumptions C11_diagnostic_at_offending_item.
+Print Assumptions C11_fails_iff_offending.
+Print Assumptions C11_orphan_error_in_document.
+Print Assumptions C11_spec_ok_b_complete.
+Print Assumptions C11_holds_complete.
+Print Assumptions C11_check_accepts_model.
